@@ -719,6 +719,14 @@ def json_rules(chk):
                 chk.bad(rule, name, "format returns %s instead of one json.dumps of the merged mapping" % show(v), node=fmt.node, stmt="not-dumps")
                 ok = False
                 continue
+            opts = {k_: v_ for k_, v_ in v[3] if k_}
+            lossy = [k_ for k_ in ("sort_keys", "skipkeys") if k_ in opts and opts[k_] != ("const", False)]
+            if lossy:
+                # a record's mapping may have non-string keys next to the always-present "message": sorting mixed keys raises
+                # TypeError (the record is lost), skipkeys drops them silently
+                chk.bad(rule, name, "json.dumps is called with %s: a payload or default with a non-string key (int, float, bool, None) next to the string keys %s" % (", ".join("%s=%s" % (k_, show(opts[k_])) for k_ in lossy), "cannot be ordered -- TypeError, the record is lost" if "sort_keys" in lossy else "is dropped from the output"), node=fmt.node, stmt="dumps-%s" % "-".join(lossy))
+                ok = False
+                continue
             data = v[2][0]
             order = []
             for e in o.path.events:
